@@ -688,3 +688,23 @@ func EIA3IV(count uint32, bearer, dir byte) []byte {
 	iv[15] = iv[7]
 	return iv
 }
+
+// CMACCarries reports the two data-dependent branches of the CMAC subkey derivation for a key: whether doubling
+// L = AES_K(0) and doubling K1 reduce (most significant bit set).
+func CMACCarries(key [16]byte) (l, k1 bool) {
+	blk, _ := aes.NewCipher(key[:])
+	var zero, lv [16]byte
+	blk.Encrypt(lv[:], zero[:])
+	a := dbl(lv)
+	return lv[0]>>7 == 1, a[0]>>7 == 1
+}
+
+// EIA1Operands returns the two multiplication operands P and Q that 128-EIA1 derives from the keystream for a
+// parameter tuple (model-directed parameters: the harness looks for tuples whose operands have a regular dense or
+// sparse structure).
+func EIA1Operands(ik [16]byte, count uint32, bearer, dir uint32) (p, q uint64) {
+	fresh := bearer << 27
+	iv := [4]uint32{fresh ^ dir<<15, count ^ dir<<31, fresh, count}
+	z := Snow3GKeystream(keyWords(ik), iv, 4)
+	return uint64(z[0])<<32 | uint64(z[1]), uint64(z[2])<<32 | uint64(z[3])
+}
